@@ -54,14 +54,12 @@ def digitsVal : Bytes → Nat → Nat
 
 /-- Unbounded signed decimal: optional sign, at least one digit, digits only. -/
 def parseDec (b : Bytes) : Option Int :=
-  let (neg, ds) := match b with
-    | 45 :: r => (true, r)
-    | 43 :: r => (false, r)
-    | r => (false, r)
-  if ds.isEmpty || !ds.all isDigit then none
-  else
-    let n : Int := digitsVal ds 0
-    some (if neg then -n else n)
+  match b with
+  | [] => none
+  | c :: r =>
+    if c == 45 then (if r.isEmpty || !r.all isDigit then none else some (-(digitsVal r 0 : Int)))
+    else if c == 43 then (if r.isEmpty || !r.all isDigit then none else some (digitsVal r 0 : Int))
+    else if !(c :: r).all isDigit then none else some (digitsVal (c :: r) 0 : Int)
 
 /-- Go `ParseInt(s,10,64)`: `parseDec` restricted to the int64 range. -/
 def parseInt64 (b : Bytes) : Option Int :=
@@ -69,7 +67,14 @@ def parseInt64 (b : Bytes) : Option Int :=
   | some n => if inRange64 n then some n else none
   | none => none
 
-def natDigits (n : Nat) : Bytes := (toString n).toUTF8.toList
+/-- decimal digits of `n`, most significant first, no leading zeros (Go `%d`) -/
+def natDigitsAux : Nat → Nat → Bytes → Bytes
+  | 0, _, acc => acc
+  | fuel + 1, n, acc =>
+    let acc' := (48 + n % 10).toUInt8 :: acc
+    if n < 10 then acc' else natDigitsAux fuel (n / 10) acc'
+
+def natDigits (n : Nat) : Bytes := natDigitsAux (n + 1) n []
 
 def showInt (i : Int) : Bytes :=
   if i < 0 then 45 :: natDigits i.natAbs else natDigits i.natAbs
